@@ -29,6 +29,7 @@ Round 6: every spelling of the byte order x both hosts gives a standard-size str
 PacketError constructor does not %-format a string that contains the original message; stale
 constructor-derived state.
 Round 7: (inherits) struct runs regrouped through a mapping or joined member by member (C03-d).
+Round 8: includes the Optional pair rule of C08 (an optional integer 0 is encoded).
 """
 import ast
 
